@@ -41,7 +41,34 @@ func witnessOrderFact(rel string) func() string {
 
 func init() {
 	w := "internal/witness/cmd/witness/internal/witness/witness.go"
-	register(genFile{name: "Witness", imports: nil, units: []unit{
+	ign := []string{"klog.", "func()", "tx.Rollback"}
+	// what a call hands back: 0 = nil, 1 = the raw STH held before the call, 2 = the freshly cosigned STH
+	val := map[string]int{"nil": 0, "prevRaw": 1, "signed": 2, "&sth": 2}
+	register(genFile{name: "Witness", imports: []string{"CTV.Basic.I64", "CTV.Basic.ErrKind"}, units: []unit{
 		{"witnessSignsBeforeCommit", witnessOrderFact(w)},
+		// whole bodies: the order of the tests, what each branch hands back (nothing / the held STH / the cosigned STH),
+		// whether an error accompanies it, and whether the row was written (setSTH succeeded) on the way
+		{"Witness.Update", handlerKernel(w, "Witness.Update", "witnessUpdate",
+			"(known nextParseFails txFails latestFails latestNotFound signFails setFails prevParseFails : Bool) (nextSize prevSize : Int) (rootsEqual proofBad : Bool)",
+			"Nat × Bool × Bool", "let stored_ := false\n  ", "(0, false, stored_)",
+			Spec{Kind: "u64", Lazy: true, Inline: true, Ret: "statusstate", StateVars: []string{"stored_"}, Ignore: ign, Status: val,
+				IgnoreLHS: []string{"_", "ok"},
+				Vars:      map[string]string{"next.TreeSize": "nextSize", "prev.TreeSize": "prevSize"},
+				ErrCalls: map[string]string{"w.parse(nextRaw": "nextParseFails", "w.parse(prevRaw": "prevParseFails", "w.db.BeginTx": "txFails",
+					"w.getLatestSTH": "latestFails", "w.signSTH(next)": "signFails", "w.setSTH(tx,logID,nextRaw)": "setFails|stored_ := (!setFails)"},
+				InitCond: map[string]string{
+					"err := proof.VerifyConsistency(rfc6962.DefaultHasher, prev.TreeSize, next.TreeSize, pf, prev.SHA256RootHash[:], next.SHA256RootHash[:]) ; err != nil": "proofBad"},
+				Repl: map[string]string{"!ok": "(!known)", "status.Code(err) == codes.NotFound": "latestNotFound",
+					"bytes.Equal(next.SHA256RootHash[:], prev.SHA256RootHash[:])": "rootsEqual"}})},
+		{"Witness.GetSTH", handlerKernel(w, "Witness.GetSTH", "witnessGetSTH", "(latestFails parseFails signFails : Bool)", "Nat × Bool", "", "(0, false)",
+			Spec{Kind: "u64", Lazy: true, Inline: true, Ret: "statusstate", Ignore: ign, Status: val,
+				ErrCalls: map[string]string{"w.getLatestSTH": "latestFails", "w.parse(sthRaw": "parseFails", "w.signSTH(sth)": "signFails"}})},
+		{"Witness.parse", handlerKernel(w, "Witness.parse", "witnessParse", "(known jsonBad idBad idEmpty idSame sigBad : Bool)", "Nat × Bool × Bool", "let filled_ := false\n  ", "(0, false, filled_)",
+			Spec{Kind: "u64", Lazy: true, Inline: true, Ret: "statusstate", StateVars: []string{"filled_"}, Ignore: ign, Status: val,
+				IgnoreLHS: []string{"sv", "ok", "sth", "idHash", "empty"},
+				InitCond: map[string]string{"err := json.Unmarshal(sthRaw, &sth) ; err != nil": "jsonBad", "err := idHash.FromBase64String(logID) ; err != nil": "idBad",
+					"err := sv.VerifySTHSignature(sth) ; err != nil": "sigBad"},
+				AppendEffect: map[string]string{"stmt:sth.LogID=idHash": "filled_ := true"},
+				Repl: map[string]string{"!ok": "(!known)", "bytes.Equal(sth.LogID[:], empty[:])": "idEmpty", "bytes.Equal(sth.LogID[:], idHash[:])": "idSame"}})},
 	}})
 }
